@@ -355,6 +355,12 @@ func (nz *Normalizer) plan(P *Program) (map[string][]textEdit, int) {
 		// (also those that an earlier pass produced when it inlined a helper that takes a callback)
 		order = nz.closureCallees(P)
 	}
+	if len(order) == 0 {
+		// … and loops over freshly introduced range-over-func iterators (normalize_iter.go)
+		if ie, in := nz.iterEdits(P); in > 0 {
+			return ie, in
+		}
+	}
 
 	edits := map[string][]textEdit{}
 	type span struct{ s, e int }
